@@ -131,3 +131,72 @@ Fixpoint run_batches (q : cpq) (bs : list (list op)) : list Z :=
   end.
 
 Definition run_cpq (l : list Z) : list Z := run_batches (mk [] 0) (split_batches l []).
+
+(* ================= element copy / assignment failures =================
+   A pushed value may be "poisoned" (copying it into the queue throws) and a pop's destination may "reject"
+   (assigning into it throws).  handle_operations answers such an operation with a failure status and leaves
+   the queue untouched (concurrent_priority_queue.h: try/catch around push_back_helper, assign_popped). *)
+Inductive fop := FPush (v : Z) (poison : bool) | FPop (reject : bool).
+Inductive fres := FRPush | FRPushFail | FRPop (v : Z) | FRFail | FRThrow.
+
+Fixpoint pass1f (q : cpq) (ops : list (nat * fop)) (postponed : list (nat * bool)) (done : list (nat * fres))
+  : cpq * list (nat * bool) * list (nat * fres) :=
+  match ops with
+  | [] => (q, postponed, done)
+  | (i, FPush v poison) :: tl =>
+      if poison then pass1f q tl postponed ((i, FRPushFail) :: done)
+      else pass1f (mk (data q ++ [v]) (mark q)) tl postponed ((i, FRPush) :: done)
+  | (i, FPop reject) :: tl =>
+      if back_beats_top q
+      then (if reject then pass1f q tl postponed ((i, FRThrow) :: done)
+            else pass1f (mk (removelast (data q)) (mark q)) tl postponed ((i, FRPop (back (data q))) :: done))
+      else pass1f q tl ((i, reject) :: postponed) done
+  end.
+
+Fixpoint pass2f (q : cpq) (pops : list (nat * bool)) (done : list (nat * fres)) : cpq * list (nat * fres) :=
+  match pops with
+  | [] => (q, done)
+  | (i, reject) :: tl =>
+      match data q with
+      | [] => pass2f q tl ((i, FRFail) :: done)
+      | _ =>
+        if reject then pass2f q tl ((i, FRThrow) :: done)
+        else if back_beats_top q
+        then pass2f (mk (removelast (data q)) (mark q)) tl ((i, FRPop (back (data q))) :: done)
+        else let '(d', m') := reheap (data q) (mark q) in
+             pass2f (mk d' m') tl ((i, FRPop (get (data q) 0)) :: done)
+      end
+  end.
+
+Definition handle_operations_f (q : cpq) (batch : list fop) : cpq * list (nat * fres) :=
+  let '(q1, postponed, done1) := pass1f q (number 0 batch) [] [] in
+  let '(q2, done2) := pass2f q1 postponed done1 in
+  let '(d3, m3) := if Nat.ltb (mark q2) (length (data q2)) then heapify (data q2) (mark q2)
+                   else (data q2, mark q2) in
+  (mk d3 m3, done2).
+
+Definition fres_at (rs : list (nat * fres)) (i : nat) : fres :=
+  match find (fun p => Nat.eqb (fst p) i) rs with Some (_, r) => r | None => FRFail end.
+
+(* flat interface: 1 v push | 2 0 pop | 3 v push whose copy throws | 4 0 pop whose assignment throws | 9 9 end of batch.
+   output per op (status, value): 1 ok, 2 failed / empty, 3 exception handed to the popping caller *)
+Fixpoint split_fbatches (l : list Z) (cur : list fop) : list (list fop) :=
+  match l with
+  | 1 :: v :: tl => split_fbatches tl (cur ++ [FPush v false])
+  | 2 :: _ :: tl => split_fbatches tl (cur ++ [FPop false])
+  | 3 :: v :: tl => split_fbatches tl (cur ++ [FPush v true])
+  | 4 :: _ :: tl => split_fbatches tl (cur ++ [FPop true])
+  | 9 :: _ :: tl => cur :: split_fbatches tl []
+  | _ => match cur with [] => [] | _ => [cur] end
+  end.
+Definition enc_fres (r : fres) : list Z :=
+  match r with FRPush => [1; 0] | FRPushFail => [2; 0] | FRPop v => [1; v] | FRFail => [2; 0] | FRThrow => [3; 0] end.
+Fixpoint run_fbatches (q : cpq) (bs : list (list fop)) : list Z :=
+  match bs with
+  | [] => []
+  | b :: tl =>
+      let '(q', rs) := handle_operations_f q b in
+      flat_map (fun i => enc_fres (fres_at rs i)) (seq 0 (length b))
+      ++ [Z.of_nat (length (data q')); Z.of_nat (mark q')] ++ data q' ++ [-7] ++ run_fbatches q' tl
+  end.
+Definition run_cpqf (l : list Z) : list Z := run_fbatches (mk [] 0) (split_fbatches l []).
